@@ -154,7 +154,7 @@ theorem norm_grp_iff (t : Tab) (P : PRow) : Grp t.norm P ↔ Grp t P := norm_grp
 /-! ## 2. one step of the compile loop -/
 
 /-- does the operation measure (and so record an outcome)? -/
-def _root_.Graphiq.COp.measures : COp → Bool
+def cMeasures : COp → Bool
   | .ccx .. | .ccz .. | .mcr .. | .measz .. => true
   | _ => false
 
@@ -173,7 +173,7 @@ def copPrims (np : Nat) (op : COp) (o : Bool) : List Tab.Op :=
   | .wrap gs q => gs.reverse.flatMap fun g => genPrims g (ix q)
 
 /-- well-formedness of the measuring pair operations: control and target are different qubits -/
-def _root_.Graphiq.COp.WF2 (np : Nat) : COp → Prop
+def cWF2 (np : Nat) : COp → Prop
   | .cnot c t | .cz c t | .mcr c t _ => qIndex np c ≠ qIndex np t
   | _ => True
 
@@ -185,9 +185,9 @@ theorem measure_fields (s : RunState) (d : Det) (q : Nat) :
 /-- **one step of the compile loop refines the group semantics**: under every measurement setting and outcome script, the
     step appends to `outs` the outcome `o` it recorded (if the operation measures), and the stabilizer group of the new
     tableau is `runP (copPrims op o)` of the old one — so `o` is feasible in the group semantics -/
-theorem cop_refines (np n : Nat) (d : Det) (s s' : RunState) (op : COp) (hwf : op.WF2 np) (ht : TInv n s.t)
+theorem cop_refines (np n : Nat) (d : Det) (s s' : RunState) (op : COp) (hwf : cWF2 np op) (ht : TInv n s.t)
     (hs : stepOp np n d s op = some s') :
-    TInv n s'.t ∧ ∃ new : List Bool, s'.outs = s.outs ++ new ∧ new.length = (if op.measures then 1 else 0) ∧
+    TInv n s'.t ∧ ∃ new : List Bool, s'.outs = s.outs ++ new ∧ new.length = (if cMeasures op then 1 else 0) ∧
       runP n (copPrims np op (new.headD false)) (some (gstate s.t)) = some (gstate s'.t) := by
   cases op with
   | gate1 g q =>
@@ -376,7 +376,7 @@ theorem g1Prims_eq (np : Nat) (g : G1) (r : QReg) : ∀ o, g1Prims g (qIndex np 
 /-- a decodable operation with distinct registers is the circuit operation `toCOp a`: same primitives, same "measures" flag,
     and the circuit operation satisfies the compiler's precondition (control ≠ target) -/
 theorem decode_toCOp (ne np : Nat) (a : SOp) (d : Dec) (hdec : decode ne np a = some d) (hnd : a.regs.Nodup) :
-    (toCOp a).WF2 np ∧ (∀ o, d.prims o = copPrims np (toCOp a) o) ∧ d.mreg.isSome = (toCOp a).measures := by
+    cWF2 np (toCOp a) ∧ (∀ o, d.prims o = copPrims np (toCOp a) o) ∧ d.mreg.isSome = cMeasures (toCOp a) := by
   have h := hdec
   unfold decode at h
   unfold toCOp
@@ -463,7 +463,7 @@ theorem sop_refines (ne np : Nat) (d : Det) (a : SOp) (hdec : (decode ne np a).i
   rw [e0]
   cases hm : dd.mreg with
   | none =>
-    have hmf : (toCOp a).measures = false := by rw [← hms, hm]; rfl
+    have hmf : cMeasures (toCOp a) = false := by rw [← hms, hm]; rfl
     rw [hmf] at hlen
     have hnil : new = [] := List.length_eq_zero_iff.mp (by simpa using hlen)
     subst hnil
@@ -475,7 +475,7 @@ theorem sop_refines (ne np : Nat) (d : Det) (a : SOp) (hdec : (decode ne np a).i
     rw [hfeed, if_pos hhas, hout, hpr, hrun]
     simp only [Option.map_some, Dec.pop, hm]
   | some r =>
-    have hmt : (toCOp a).measures = true := by rw [← hms, hm]; rfl
+    have hmt : cMeasures (toCOp a) = true := by rw [← hms, hm]; rfl
     rw [hmt] at hlen
     obtain ⟨o, ho⟩ : ∃ o, new = [o] := List.length_eq_one_iff.mp (by simpa using hlen)
     subst ho
